@@ -16,7 +16,7 @@ import re
 from typing import Any, Dict, List, Optional, Set, Tuple
 
 from ..model import Program, AnalysisError, FuncInfo, walk_local, dotted
-from ..report import RuleResult
+from ..report import RuleResult, guard
 from ..astutil import src, site, calls_in, call_name, is_self_attr, kwarg
 from ..cfg import CFG
 from ..dtable import explore, Sym, App, term
@@ -544,4 +544,4 @@ def run(prog: Program, tier: str) -> List[RuleResult]:
     # the generator reads every field through its resolved annotation: an unresolved forward reference is no class to map
     from .c17 import wf_resolved
 
-    return [wf_table(prog), orm_dispatch(prog), orm_imports(prog), orm_names(prog), orm_determinism(prog), orm_memo(prog), wf_resolved(prog), orm_order(prog)]
+    return [guard(lambda: wf_table(prog)), guard(lambda: orm_dispatch(prog)), guard(lambda: orm_imports(prog)), guard(lambda: orm_names(prog)), guard(lambda: orm_determinism(prog)), guard(lambda: orm_memo(prog)), guard(lambda: wf_resolved(prog)), guard(lambda: orm_order(prog))]
